@@ -2272,6 +2272,9 @@ impl<'a> Searcher<'a> {
                         _ => false,
                     }
                 }
+                // a column or function that has no value for this entry (no EXIF data, no birth
+                // time) is compared with nothing: the condition is not met, the search goes on
+                VariantType::DateTime if !right_is_literal && value.to_string().is_empty() => false,
                 VariantType::DateTime => {
                     let (start, finish) = value.to_datetime();
                     let start = start.and_utc().timestamp();
